@@ -55,6 +55,7 @@ impl Monitor for C14 {
             "record_dropped",
             "record_kept",
             "several_shortest_chains",
+            "source_with_names_over_255_bytes",
         ]
         .iter()
         .map(|s| (*s).to_string())
@@ -83,6 +84,16 @@ impl Monitor for C14 {
             ..GenCfg::default()
         };
         let mut facts = crate::gen::gen_facts(&mut rng, &cfg);
+        // term names longer than the binary format's 255-byte limit are legal in an ontology built through
+        // the Builder and must be copied unchanged
+        if path != PathKind::BytesV3 && rng.chance(1, 4) {
+            for t in facts.terms.iter_mut().filter(|t| t.id != 1 && t.id != 118) {
+                if rng.chance(1, 3) {
+                    t.name = format!("{} {}", "long name".repeat(rng.urange(29, 40)), t.id);
+                }
+            }
+            out.bucket("source_with_names_over_255_bytes");
+        }
         // make sure there are modifier branches with annotations on roots and descendants
         let m0 = Model::new(&facts, defaults);
         if defaults && m0.modifier_roots.is_empty() {
